@@ -16,6 +16,7 @@ calls of the library are the linearisation points of a sequential library):
   ['mem']                   memory_usage()
   ['save_on', [ranks], inc] state_dict() only on a subset of ranks
   ['mem_on', [ranks]]       memory_usage() only on a subset of ranks
+  ['reset_on', [ranks]]     reset_batch() only on a subset of ranks
 """
 
 from __future__ import annotations
@@ -455,6 +456,11 @@ class RankRun:
                 self.have_grads = False
             elif kind == 'reset':
                 self.pre.reset_batch()
+            elif kind == 'reset_on':
+                # reset_batch() implies no collective: a subset of the ranks
+                # may drop the statistics of the current iteration
+                if self.rank in op[1]:
+                    self.pre.reset_batch()
             elif kind == 'sched':
                 assert self.sched is not None
                 self.sched.step(op[1] if len(op) > 1 else None)
